@@ -1,6 +1,6 @@
 #!/usr/bin/env python3
 """Re-run the registered checks against every kept seeded change (apply to /repo, check, restore).
-usage: run_seeded.py [seed-id ...]   -> table seed / property / detected-by"""
+usage: run_seeded.py [--update] [seed-id ...]   (--update: run all 19 checks and rewrite meta.json)   -> table seed / property / detected-by"""
 import sys, os, json, subprocess
 VERIF = os.path.dirname(os.path.dirname(os.path.abspath(__file__)))
 
@@ -11,7 +11,8 @@ def sh(cmd):
 
 
 def main():
-    want = sys.argv[1:]
+    update = '--update' in sys.argv
+    want = [a for a in sys.argv[1:] if a != '--update']
     rc, out = sh('git -C /repo status --porcelain')
     if out.strip():
         raise SystemExit('/repo not clean')
@@ -29,10 +30,14 @@ def main():
             continue
         try:
             props = [prop] + [p for p in meta.get('also_check', [])]
+            if update:
+                props = ['C%02d' % i for i in range(1, 20)]
+            res = {}
             det = []
             lines = []
             for p in props:
                 rc, o = sh('./check %s' % p)
+                res[p] = {'exit': rc, 'findings': [l[:300] for l in o.splitlines() if l.startswith('FINDING')][:6]}
                 if rc == 1:
                     det.append(p)
                     lines += [l[:230] for l in o.splitlines() if l.startswith('FINDING')][:3]
@@ -40,6 +45,12 @@ def main():
                     det.append(p + '(broken rc=%d)' % rc)
         finally:
             sh('git -C /repo checkout -- .')
+        if update:
+            meta['checks'] = res
+            meta['detected_by'] = [p for p, r in res.items() if r['exit'] == 1]
+            meta['broken_checks'] = [p for p, r in res.items() if r['exit'] not in (0, 1)]
+            meta['detected_by_own_property'] = prop in meta['detected_by']
+            json.dump(meta, open(os.path.join(d, 'meta.json'), 'w'), indent=1)
         good = prop in det
         ok = ok and good
         print('%s %-12s %s detected_by=%s' % ('OK ' if good else 'MISS', sid, prop, det))
